@@ -179,7 +179,7 @@ def worker(args):
                     hutil.discharge(chk, ex, label + ':allocation==len*itemsize', reg.base + reg.size - data == k * isz, inputs)
                     got = [bv(ex.mem.load(data + isz * j, isz), 8 * isz) for j in range(k)]
                     hutil.discharge(chk, ex, label + ':items-in-order', z3.And(*[g == v for g, v in zip(got, vals)]) if k else True, inputs)
-    else:
+    elif what[0] == 'struct':
         # struct { int a; <tail> }: tail = flexible short[] / nested var-sized struct
         variant, k = what[1], what[2]
 
@@ -273,6 +273,93 @@ def worker(args):
                 hutil.discharge(chk, ex, label + ':bytes==fields-then-items',
                                 z3.And(*[bv(x, 8) == w for x, w in zip(same, want)]), inputs)
 
+    if what[0] == 'aggregate':
+        variant, order = what[1], what[2]
+
+        def h(ex):
+            py = pystubs.PyEnv(ex)
+            alloc = ex.gaddr('default_allocator')
+            i32, i16 = int_type(ex, 4), int_type(ex, 2)
+            BS_REGULAR = mask(16)
+            is_union = variant == 'union'
+            if is_union:
+                layout = [('a', i32, 0, 4), ('b', i16, 0, 2)]
+                total = 4
+            else:
+                layout = [('a', i32, 0, 4), ('b', i16, 4, 2), ('c', i32, 8, 4)]
+                total = 12
+            fields = []
+            for i, (nm, ct, off, sz) in enumerate(layout):
+                fl = F['BF_IGNORE_IN_CTOR'] if (is_union and i > 0) else 0       # as b_complete_struct_or_union sets it (C01)
+                fields.append(pystubs.new_cfield(ex, L, ct, off, BS_REGULAR, mask(16), flags=fl))
+            for a_, b_ in zip(fields, fields[1:]):
+                ex.mem.store(a_ + L.cf['cf_next'], b_, 8)
+            names = dict((nm, py.new_unicode([ord(nm)], 1)) for nm, _, _, _ in layout)
+            d = py.new_opaque('dict', 'PyDict_Type', items=[[names[nm], f] for (nm, _, _, _), f in zip(layout, fields)])
+            t = pystubs.new_ctype(ex, L, total, F['CT_UNION'] if is_union else F['CT_STRUCT'], length=4, stuff=d, extra=fields[0])
+            tp = pystubs.new_ctype(ex, L, 8, F['CT_POINTER'] | F['CT_IS_PTR_TO_OWNED'], itemdescr=t)
+            vals = dict((nm, z3.BitVec('v_' + nm, 8 * sz)) for nm, _, _, sz in layout)
+            inputs = dict(('v_' + nm, v) for nm, v in vals.items())
+            mk = lambda nm: py.new_int(z3.SignExt(W - vals[nm].size(), vals[nm]))
+            chosen = []
+            if variant == 'dict':
+                keys = [nm for nm, _, _, _ in layout]
+                if order == 'reversed':
+                    keys = keys[::-1]
+                for nm in keys:
+                    if ex.decide(z3.Bool('init_has_' + nm)):
+                        chosen.append(nm)
+                    inputs['init_has_' + nm] = z3.Bool('init_has_' + nm)
+                unknown = ex.decide(z3.Bool('init_has_unknown_key'))
+                inputs['init_has_unknown_key'] = z3.Bool('init_has_unknown_key')
+
+                def mk_init():
+                    items = [[py.new_unicode([ord(nm)], 1), mk(nm)] for nm in chosen]     # fresh key objects: lookup is by content
+                    if unknown:
+                        items.append([py.new_unicode([ord('z')], 1), py.new_int(V_const(1))])
+                    return py.new_opaque('dict', 'PyDict_Type', items=items)
+                expect_ok = not unknown
+            else:
+                k = order
+                seq = [nm for nm, _, _, _ in layout][:k] if not is_union else (['a', 'b'][:k])
+                chosen = seq[:1] if is_union else seq
+
+                def mk_init():
+                    return py.new_list([mk(nm) for nm in seq])
+                expect_ok = (k <= 1) if is_union else True
+            none = ex.gaddr('_Py_NoneStruct')
+            r1 = simp(ex.call('direct_newp', [tp, mk_init(), alloc]))
+            ok1 = is_c(r1) and r1 != 0 and py.exc is None
+            exc1 = py.exc
+            py.exc = None
+            r2 = simp(ex.call('direct_newp', [tp, none, alloc]))
+            ok2 = is_c(r2) and r2 != 0 and py.exc is None
+            if ok2:
+                d2 = simp(ex.mem.load(r2 + 24, 8))
+                rr = simp(ex.call('convert_from_object', [d2, t, mk_init()]))
+                ok2 = (rr == 0) and py.exc is None
+            exc2 = py.exc
+            hutil.witness(chk, ex, label + (':accepted' if ok1 else ':rejected'))
+            hutil.discharge(chk, ex, label + ':new(T,init)-succeeds-iff-new+assign-does-with-the-same-exception', ok1 == ok2 and (ok1 or exc1 == exc2), inputs)
+            hutil.discharge(chk, ex, label + ':accepted-iff-the-initializer-is-valid', ok1 == expect_ok, inputs)
+            if not ok1:
+                want_exc = 'PyExc_KeyError' if variant == 'dict' else 'PyExc_ValueError'
+                hutil.discharge(chk, ex, label + ':rejected-with-' + want_exc[6:], exc1 == want_exc, inputs)
+                return
+            d1 = simp(ex.mem.load(r1 + 24, 8))
+            reg1 = ex.mem.region_of(d1)
+            hutil.discharge(chk, ex, label + ':allocation-is-sizeof(T)', reg1.base + reg1.size - d1 == total, inputs)
+            want = [z3.BitVecVal(0, 8)] * total
+            for nm, _, off, sz in layout:
+                if nm in chosen:
+                    for b_ in range(sz):
+                        want[off + b_] = z3.Extract(8 * b_ + 7, 8 * b_, vals[nm])
+            got1 = [bv(ex.mem.byte_expr(d1 + j), 8) for j in range(total)]
+            hutil.discharge(chk, ex, label + ':bytes==named-fields-set-everything-else-zero', z3.And(*[g == w_ for g, w_ in zip(got1, want)]), inputs)
+            if ok2:
+                got2 = [bv(ex.mem.byte_expr(d2 + j), 8) for j in range(total)]
+                hutil.discharge(chk, ex, label + ':same-bytes-as-new+assign', z3.And(*[g == h_ for g, h_ in zip(got1, got2)]), inputs)
+
     res = ex.explore(h, max_paths=5000)
     hutil.finish_explore(chk, ex, res, label)
     chk.functions = irgen.func_info(mod, sorted(ex.called))
@@ -290,12 +377,18 @@ def run(chk):
         cases.append(P + (('new-array', 4, k),))
         cases.append(P + (('struct', 'flex', k),))
     cases.append(P + (('struct', 'nested-cdata', 0),))
+    cases.append(P + (('aggregate', 'dict', 'declared'),))
+    cases.append(P + (('aggregate', 'dict', 'reversed'),))
+    for k in range(0, 4):
+        cases.append(P + (('aggregate', 'seq', k),))
+    for k in range(0, 3):
+        cases.append(P + (('aggregate', 'union', k),))
     chk.bounds = {'sizing': 'any offset, length, previous size (64-bit); item sizes {1,2,4,8,12}',
                   'ffi.new("T[]", n)': 'any Python int n; allocation performed for n*itemsize <= 1 MiB',
                   'initializers': 'lists of 0..%d items; struct {int; short[]} and struct {int; struct-with-flexible-array} '
                   'given as cdata' % (2 if quick else 4)}
-    chk.outside = ['dict initializers and deeper nesting', 'custom allocators (ffi.new_allocator)', 'allocation failure (MemoryError)',
-                   'union initializers']
+    chk.bounds['aggregates'] = 'struct {int a; short b; int c}: dict initializers with every subset of the fields in two orders (+ an unknown key), sequences of 0..3 items; union {int a; short b}: sequences of 0..2 items; every value'
+    chk.outside = ['deeper nesting of initializers', 'custom allocators (ffi.new_allocator)', 'allocation failure (MemoryError)']
     chk.assume('calloc returns zeroed memory, malloc arbitrary memory (libc); CPython contracts of vf/pystubs.py')
     irgen.backend()
     hutil.run_cases(chk, cases, worker)
